@@ -198,4 +198,15 @@ theorem trainTTables_good (lvl : Nat → Nat → Nat → Nat) (alphabetSize ngra
     (trainTTables lvl alphabetSize ngram minLength maxLength maxLevel pws).Good :=
   toTTables_good lvl ngram maxLevel hn hl _ (countTables_inv _ ngram minLength maxLength (by omega) pws)
 
+theorem clampLevel_le (raw : Int) (maxLevel : Nat) : clampLevel raw maxLevel ≤ maxLevel := by
+  unfold clampLevel
+  split
+  · exact Nat.le_refl _
+  · split
+    · exact Nat.zero_le _
+    · omega
+
+theorem lvlOf_le (raw : Nat → Nat → Nat → Int) (maxLevel : Nat) (a b c : Nat) : lvlOf raw maxLevel a b c ≤ maxLevel :=
+  clampLevel_le _ _
+
 end Omen
